@@ -1,5 +1,7 @@
 #!/bin/sh
 # regenerate _CoqProject file list and Makefile
 cd "$(dirname "$0")"
-{ printf '%s\n' '-Q Model Truc.Model' '-Q Proofs Truc.Proofs' '-Q Props Truc.Props' '-arg -w -arg -deprecated-syntactic-definition,-deprecated-hint-without-locality'; ls Model/*.v Proofs/*.v Props/*.v 2>/dev/null; } > _CoqProject
+mkdir -p Current
+[ -f Current/Runtime.v ] || python3 -c "import sys; sys.path.insert(0, '..'); from vlib import srcscan; srcscan.write_current()"
+{ printf '%s\n' '-Q Model Truc.Model' '-Q Proofs Truc.Proofs' '-Q Props Truc.Props' '-Q Current Truc.Current' '-arg -w -arg -deprecated-syntactic-definition,-deprecated-hint-without-locality'; ls Model/*.v Proofs/*.v Current/*.v Props/*.v 2>/dev/null; } > _CoqProject
 coq_makefile -f _CoqProject -o Makefile >/dev/null
